@@ -26,6 +26,20 @@ def roundtrips(ctx, n):
         dim = 2 if k % 2 == 0 else 3
         if k % 4 < 2:
             p, q, r = gen.point(dim), gen.point(dim), gen.point(dim)
+            if k % 12 < 2:
+                # complex coordinates whose representatives are far from unit magnitude: every intermediate result is renormalised
+                from fractions import Fraction
+                s = ctx.rng.choice([Fraction(1, 1000), Fraction(1000), Fraction(1, 1024)])
+                p0, q0, r0 = (gen.point(dim, cplx=True) for _ in range(3))
+                base = call_impl(lambda: g.meet(g.join(p0.impl(), q0.impl()), g.join(p0.impl(), r0.impl())))
+                p, q, r = p0.scaled(s), q0.scaled(s), r0.scaled(s)
+                if base[0] == "ok":
+                    sc = call_impl(lambda: g.meet(g.join(p.impl(), q.impl()), g.join(p.impl(), r.impl())))
+                    ctx.count("roundtrip:scaled-complex")
+                    if sc[0] != "ok":
+                        ctx.disagree("C01:roundtrip:scaled-representatives", f"rt-meet-join dim={dim} {p0} {q0} {r0} all scaled by {s}",
+                                     "the same point as for the unscaled representatives", sc[1:3], replay=None)
+                        continue
             def f(p=p, q=q, r=r):
                 return g.meet(g.join(p.impl(), q.impl()), g.join(p.impl(), r.impl()))
             desc = f"rt-meet-join dim={dim} {p} {q} {r}"
